@@ -521,8 +521,8 @@ impl Monitor for C13 {
         N_DIRECTED
             + match t {
                 Tier::Tiny => 12,
-                Tier::Quick => 12_000,
-                Tier::Thorough => 200_000,
+                Tier::Quick => 96000,
+                Tier::Thorough => 1152000,
             }
     }
     fn rule(&self) -> &'static str {
